@@ -5,13 +5,15 @@ A change of the keyword wiring, of the date helpers' zone handling, of the isins
 the output paths or of the integer-list normaliser changes the generated file and one of these
 lemmas stops type-checking.
 
-Recorded (unrepaired) defects are stated *relative to* `Known.*` (mirrors `known_findings.json`): the known
+Recorded (unrepaired) defects would be stated *relative to* `Known.*` (mirrors `known_findings.json`; none
+is left for C15): a known
 mismatch builds, any new one breaks the lemma.
 -/
 import SnowModel.Core.Rrule
 import SnowModel.Generated.Schedule
 import SnowModel.Generated.Memorable
 import SnowModel.Generated.MemoState
+import SnowModel.Generated.DateParse
 
 namespace SnowModel.Props.C15Bridge
 open SnowModel.Rrule
@@ -19,11 +21,10 @@ open SnowModel.Rrule
 namespace Known
 /-- no recorded wiring mismatch (D13, `byweekno` fed from `bysecond`, was repaired by 5a30154) -/
 def wiringMismatches : List (Kw × Kw) := []
-/-- D21: every date helper builds its datetimes with `tzinfo=timezone.utc` -/
-def helperZone : String := "timezone.utc"
-/-- D35: `_normalize_until` has no `datetime` test before `isinstance(until, date)` -/
-def untilTests : List String :=
-  ["not until", "isinstance(until, str)", "is_datetime(until)", "isinstance(until, date)"]
+/-- no recorded zone defect (D21 / D35 / D36 were repaired by eef84fd): the start itself defaults
+    to UTC; date-valued arguments take the start's zone -/
+def startZone : String := "timezone.utc"
+def dateArgZone : String := "self.start_date.tzinfo"
 end Known
 
 /-- renames that are part of the design, not mismatches: `dtstart` is the normalised
@@ -83,46 +84,87 @@ theorem gate_pin :
     Gen.Schedule.gateTest = ["not use_undocumented_features and any([bysetpos, byeaster, cache, byweekno])"] := by
   decide
 
-/-- D21, relative to the record: every `tzinfo=` of the date helpers is `Known.helperZone` … -/
-theorem helpers_zone_modulo_known : ∀ e ∈ Gen.Schedule.helperTzinfo, e.2.2 = Known.helperZone := by
+/-- zone handling of the date helpers: only the *start* is given UTC (a date start at midnight
+    UTC, a naive datetime start read as UTC); `_at_start_time` — the one place where a date-valued
+    `until` / `include` / `exclude` becomes a datetime — uses the start's own zone
+    (`atStartTime` in the model); no other helper sets a zone -/
+theorem helpers_zone_pin :
+    Gen.Schedule.helperTzinfo =
+      [("_normalize_start_date", "time", Known.startZone),
+       ("_normalize_start_date", "start_date.replace", Known.startZone),
+       ("_at_start_time", "datetime.combine", Known.dateArgZone)] ∧
+    Gen.Schedule.atStartTime = ["datetime.combine(d, self.start_date.time(), tzinfo=self.start_date.tzinfo)"] := by
   decide
 
-/-- … and these are the helper call sites the model's `normUntil` / `normDateArg` describe -/
-theorem helpers_zone_sites :
-    Gen.Schedule.helperTzinfo.map (fun e => (e.1, e.2.1)) =
-      [("_normalize_start_date", "time"), ("_normalize_start_date", "start_date.replace"),
-       ("_normalize_until", "datetime.combine"), ("_normalize_until", "until.replace"),
-       ("_process_special_cases", "datetime.combine"), ("_process_special_cases", "datetime.combine")] := by
-  decide
-
-/-- `_normalize_until` as modelled by `normUntil`: string → (datetime string | date at the start's
-    time); any `date` (hence also a `datetime`: D35) → its date at the start's time; finally
-    re-labelled UTC -/
+/-- `_normalize_until` as modelled by `normUntil`: datetime string → `parse_datetimespec`; date
+    string → `_at_start_time(parse_date)`; `datetime` object (tested *before* `date`) →
+    `parse_datetimespec`; `date` → `_at_start_time`; finally converted (not re-labelled) to UTC -/
 theorem until_pin :
-    Gen.Schedule.untilTests = Known.untilTests ∧
+    Gen.Schedule.untilTests =
+      ["not until", "isinstance(until, str) and is_datetime(until)", "isinstance(until, str)",
+       "isinstance(until, datetime)", "isinstance(until, date)"] ∧
     Gen.Schedule.untilAssignments =
-      ["until = parse_datetimespec(until)",
-       "until = datetime.combine(parse_date(until), self.start_date.time())",
-       "until = datetime.combine(until, self.start_date.time(), tzinfo=timezone.utc)"] ∧
-    Gen.Schedule.untilReturn = ["until.replace(tzinfo=timezone.utc)", "None"] := by
+      ["until = parse_datetimespec(until)", "until = self._at_start_time(parse_date(until))",
+       "until = parse_datetimespec(until)", "until = self._at_start_time(until)"] ∧
+    Gen.Schedule.untilReturn = ["until.astimezone(timezone.utc)", "None"] := by
   decide
 
 /-- `_process_special_cases` as modelled by `normDateArg` / `combine`: list → each; rule → its
-    ruleset; `datetime` → as is; `date` and string → that date at the start's time -/
+    ruleset; `datetime` → `parse_datetimespec` (naive = UTC); `date` → `_at_start_time`;
+    string → `_at_start_time(parse_date(…))` -/
 theorem special_cases_pin :
     Gen.Schedule.specialTests =
       ["action == 'exclude'", "action == 'include'", "isinstance(case, (list, tuple))",
        "isinstance(case, CalendarRule)", "isinstance(case, datetime)", "isinstance(case, date)",
        "isinstance(case, str)"] ∧
-    Gen.Schedule.specialCombines =
-      ["datetime.combine(d, self.start_date.time(), tzinfo=timezone.utc)",
-       "datetime.combine(d2, self.start_date.time(), tzinfo=timezone.utc)"] ∧
+    Gen.Schedule.specialBranches =
+      [("isinstance(case, (list, tuple))", "for case in case: ;     self._process_special_cases(case, action)"),
+       ("isinstance(case, CalendarRule)", "add_rule(T.cast(T.Any, case.ruleset))"),
+       ("isinstance(case, datetime)", "add_date(parse_datetimespec(case))"),
+       ("isinstance(case, date)", "self._process_special_cases(self._at_start_time(case), action)"),
+       ("isinstance(case, str)", "self._process_special_cases(self._at_start_time(parse_date(case)), action)")] ∧
     Gen.Schedule.initCalls =
       ["self._check_undocumented_features(use_undocumented_features, bysetpos, byeaster, cache, byweekno)",
        "self._set_output_datetype_date_or_datetime(precision)", "self.ruleset.rrule(self.rrule)",
        "exclude -> self._process_special_cases(exclude, 'exclude')",
        "include -> self._process_special_cases(include, 'include')"] := by
   decide
+
+/-- `parse_datetimespec` / `parse_date` as the model's `parseDatetimespec` and the date forms
+    assume: a datetime keeps its zone and a naive one means UTC (object and string alike), a
+    `datetime` given where a date is wanted contributes its own calendar date, strings are read by
+    dateutil (only strings go through the cached helpers) -/
+theorem date_parse_pin :
+    Gen.DateParse.parseDatetimespec =
+      [("isinstance(d, datetime)", "if not d.tzinfo: ;     d = d.replace(tzinfo=timezone.utc) ; return d"),
+       ("isinstance(d, str)", "if d == 'now': ;     return datetime.now(tz=timezone.utc) ; elif d == 'today': ;     return datetime.combine(date.today(), datetime.min.time(), tzinfo=timezone.utc) ; return _parse_datetime_str(d)"),
+       ("isinstance(d, date)", "return datetime.combine(d, datetime.min.time(), tzinfo=timezone.utc)")] ∧
+    Gen.DateParse.parseDate =
+      [("isinstance(d, datetime)", "return d.date()"), ("isinstance(d, date)", "return d"),
+       ("return", "_parse_date_str(d)")] ∧
+    Gen.DateParse.parsedatetimestrBody =
+      ["dt = dateutil.parser.parse(d)", "if not dt.tzinfo: ;     dt = dt.replace(tzinfo=timezone.utc)", "return dt"] ∧
+    Gen.DateParse.parsedatestrBody = ["return dateutil.parser.parse(d).date()"] := ⟨rfl, rfl, rfl, rfl⟩
+
+/-- the interval guard modelled by `intervalError` / `pluginCheck`: not an int, a bool, or
+    below 1 ⇒ `DataGenValueError`; it sits after the gate, the start / list / until normalisation
+    and before the frequency check and the `rrule(...)` call -/
+theorem interval_guard_pin :
+    Gen.Schedule.intervalGuard =
+      ["not isinstance(interval, int) or isinstance(interval, bool) or interval < 1", "exc.DataGenValueError"] ∧
+    Gen.Schedule.initSteps =
+      ["self._check_undocumented_features(use_undocumented_features, bysetpos, byeaster, cache, byweekno)",
+       "(self.start_date, precision) = self._normalize_start_date(start_date)",
+       "self._set_output_datetype_date_or_datetime(precision)", "wkst = rrule_mod.SU",
+       "bysetpos = process_list_of_ints(bysetpos)", "bymonth = process_list_of_ints(bymonth)",
+       "bymonthday = process_list_of_ints(bymonthday)", "byyearday = process_list_of_ints(byyearday)",
+       "byeaster = process_list_of_ints(byeaster)", "byhour = process_list_of_ints(byhour)",
+       "byminute = process_list_of_ints(byminute)", "bysecond = process_list_of_ints(bysecond)",
+       "byweekno = process_list_of_ints(byweekno)", "until = self._normalize_until(until)",
+       "if not isinstance(interval, int) or isinstance(interval, bool) or interval < 1",
+       "freq = self._normalize_frequency(freq)", "if byweekday", "self.ruleset = rruleset(cache)",
+       "self.rrule = rrule(...)", "self.ruleset.rrule(self.rrule)", "self.compound = include or exclude",
+       "if exclude", "if include", "self.iterator = iter(self)"] := ⟨rfl, rfl⟩
 
 /-- the cache key of `evaluate_memorable_function` is built from the context, the positional
     *values* and the keyword *items* — the `keyParts` of the model, for which
